@@ -111,7 +111,13 @@ def run(ctx):
             rec = dict(cpu='%d%%' % cap['cpu'], memory=spell_capacity(rng, cap['memory']),
                        disk=spell_capacity(rng, cap['disk']), limits=limits)
             if (cell, p) in pcap:
-                be.partition().replace([p, cell], rec)
+                if rng.random() < 0.5:
+                    # the way the admin CLI changes capacity and per-trait limits: an update of the record (a list of
+                    # limits that became shorter - or empty - replaces the stored one)
+                    be.partition().update([p, cell], rec)
+                    ctx.count('partition_updated_in_place' + ('_limits_emptied' if not limits and pcap[(cell, p)]['limits'] else ''))
+                else:
+                    be.partition().replace([p, cell], rec)
             else:
                 be.partition().create([p, cell], rec)
             pcap[(cell, p)] = dict(cpu=cap['cpu'], memory=own_bytes(rec['memory']), disk=own_bytes(rec['disk']),
